@@ -20,6 +20,7 @@ From PowHsm Require Import Proofs.SrcEquivGateV1M.
 From PowHsm Require Import Proofs.SrcLiftGate2.
 From PowHsm Require Import Proofs.SrcEquivSendCommandM.
 From PowHsm Require Import Proofs.SrcLiftGateV1.
+From PowHsm Require Import Proofs.SrcLiftC11.
 Open Scope N_scope.
 
 (* closed check on the generated except-ladders: every v5 handler maps a link error to (flag set, device error) and a timeout to (flag untouched, device error) *)
@@ -377,5 +378,49 @@ Theorem C11_source_link_fault_reply_v1 :
          comm_issue (snd (op w)) = is_comm_fault f /\
          (exists pre : list event, n = pre ++ [Apdu b f] /\ clean P pre).
 Proof. exact (@src_link_fault_reply_v1). Qed.
+
+(* the translated request path ends in exactly the world (trace, flag, link) the accepted command's handler ends in *)
+Theorem C11_source_world_is_handler_world :
+  forall (keccak : bytes -> bytes) (kind : dongle_kind) (init : pm pv)
+           (cm : string -> pv -> list pv -> pr pv) (fuel : nat) (self : pv) 
+           (request : json) (cmd : str) (req : obj) (opname : str) (op : M rtuple) 
+           (w : world),
+         env_ok keccak kind init cm fuel w ->
+         gate_request V5 request = GAccept cmd req ->
+         assoc_str cmd DISPATCH_V5 = Some opname ->
+         run_operation keccak kind V5 opname req = Some op ->
+         snd
+           (srcm_HSM2ProtocolLedger____internal_handle_request fuel cm init self (of_json request) w) =
+         snd (op w).
+Proof. exact (@src_world_is_handler_world). Qed.
+
+(* with the flag raised and a working connect, on the translated request path: close, re-connect and the bring-up (IS_ONBOARD first) come before the command's own events, which exist only if the bring-up succeeded - exactly when the flag is cleared *)
+Theorem C11_source_repair_precedes_command :
+  forall (keccak : bytes -> bytes) (kind : dongle_kind) (init : pm pv)
+           (cm : string -> pv -> list pv -> pr pv) (fuel : nat) (self : pv) 
+           (request : json) (cmd : str) (req : obj) (opname : str) (op : M rtuple)
+           (P : bytes -> resp -> bool) (rcn : bool) (w : world),
+         env_ok keccak kind init cm fuel w ->
+         gate_request V5 request = GAccept cmd req ->
+         assoc_str cmd DISPATCH_V5 = Some opname ->
+         run_operation keccak kind V5 opname req = Some op ->
+         shape kind V5 P rcn op ->
+         comm_issue w = true ->
+         connect_ok w ->
+         let wf :=
+           snd
+             (srcm_HSM2ProtocolLedger____internal_handle_request fuel cm init self 
+                (of_json request) w) in
+         (exists r : result rtuple, pure_result r /\ op w = (r, w)) \/
+         (exists more_up n_cmd : list event,
+            let n_up :=
+              close_events w ++ Connect true :: Apdu [CLA; CMD_IS_ONBOARD] (next_answer w) :: more_up
+              in
+            news w (snd (ensure_connection kind w)) n_up /\
+            news w wf (n_up ++ n_cmd) /\
+            (n_cmd <> [] -> exists u : unit, fst (initialize_device kind (closed_world w)) = Ok u) /\
+            (comm_issue (snd (ensure_connection kind w)) = false <->
+             (exists u : unit, fst (initialize_device kind (closed_world w)) = Ok u))).
+Proof. exact (@src_repair_precedes_command). Qed.
 
 Example C11_nonvacuous : True. Proof. exact I. Qed. (* concrete three-request lifetimes closed by vm_compute in Proofs/C11.v, Module Examples *)
